@@ -182,7 +182,9 @@ var w *world
 func run(c *vf.Ctx) {
 	c.Rule("shape grid: issuer key kind x (signer, carried certificate) x status/reason x hash x extensions x time class x serial class for CreateResponse round trips; " +
 		"responder-id form x certificate list x signer x number of SingleResponses for reference-built responses; each parsed with no issuer, the issuer and another CA; " +
-		"fault part: one case = one (response, offset, substituted value); distinct = distinct grid point or fault position")
+		"fault part: one case = one (response, offset, substituted value); distinct = distinct grid point or fault position; " +
+		"part H: signer key kind {P-224, P-384, P-521, RSA, P-256} x requested algorithm {none, 4 ECDSA, 4 RSA, 6 unusable}; one extension of EVERY length 0..400 and every length in a window below 65536, 2..40 extensions, responder subjects of 1..300 octets; " +
+		"parsed response re-signed as template by 4 x 4 signer pairs; DER buffer overwritten after parsing; 2/5/60/700 SingleResponses with the wanted serial first/middle/last/twice and near-miss serials")
 	c.Assume("crypto/rsa, crypto/ecdsa, crypto/x509 (certificate creation and parsing), encoding/asn1 and the hash packages of the standard library are trusted")
 	c.Assume("the reference (ref/ocspref) follows RFC 6960 4.1.1/4.2.1 and reproduces OpenSSL 3.5 responses and requests byte for byte (its own tests)")
 	c.Assume("key values are fresh per run (RSA/ECDSA key generation is not reproducible); the enumerated space is the shape grid, not the keys")
@@ -200,6 +202,9 @@ func run(c *vf.Ctx) {
 	}
 	if want("R2") {
 		timed(c, "R2", func() { referenceBuilt(c) })
+	}
+	if want("H1") || want("H2") || want("H3") || want("H4") || want("H5") {
+		timed(c, "H", func() { hardenPart(c) })
 	}
 	if want("F") {
 		timed(c, "F", func() { faults(c) })
